@@ -29,10 +29,24 @@ package main
 //@ extern FlagSet.Usage()
 //@ extern usage()
 
-//@ extern input(filename string) (nm string, rc io.ReadCloser)
+// input / output: a file that cannot be opened ends the run with a non-zero status (C13)
+//@ extern os.Open(name string) (f *os.File, oerr error)
+//@   ensures oerr == nil ==> f != nil
+//@ extern os.Create(name string) (f *os.File, cerr3 error)
+//@   ensures cerr3 == nil ==> f != nil
+//@ extern bufio.NewReader(rd io.Reader) (br *bufio.Reader)
+//@   ensures br != nil
+//@ extern makeReadCloser(r io.Reader, c io.Closer) (rc io.ReadCloser)
 //@   ensures rc != nil
-//@ extern output(filename string) (wc io.WriteCloser)
-//@   ensures wc != nil
+//@ func input(filename string) (nm string, rc io.ReadCloser)
+//@   nosafety
+//@   ensures [reader C13] rc != nil
+//@   before var.exit assert [nonzero C13] code != 0
+//@   all-calls os.Open [open-error-exits C13] oerr == nil
+//@ func output(filename string) (wc io.WriteCloser)
+//@   nosafety
+//@   before var.exit assert [nonzero C13] code != 0
+//@   all-calls os.Create [create-error-exits C13] cerr3 == nil
 //@ extern io.ReadCloser.Close(c io.ReadCloser) (cerr error)
 //@ extern io.WriteCloser.Close(c io.WriteCloser) (cerr2 error)
 //@ extern io.WriteCloser.Write(c io.WriteCloser, b []byte) (n int, werr error)
